@@ -95,7 +95,8 @@ Definition conform_a_case (l : list Z) : list Z :=
 Definition should_dial (info : Z -> ainfo) (fdir : bool) (u : list Z) (a : Z) : bool :=
   memz a u && ai_tpt (info a) && negb (ai_unspec (info a)) && negb (fdir && ai_proxy (info a)) &&
   negb (let pc := preferred_cls (ai_cls (info a)) in
-        negb (pc =? 0) && existsb (fun b => ai_tpt (info b) && (ai_cls (info b) =? pc) && (ai_grp (info b) =? ai_grp (info a))) u).
+        negb (pc =? 0) && negb (ai_grp (info a) =? 0) &&
+        existsb (fun b => ai_tpt (info b) && (ai_cls (info b) =? pc) && (ai_grp (info b) =? ai_grp (info a))) u).
 
 Definition monitor_a_case (l : list Z) : list Z :=
   match decode_acase l with
